@@ -41,6 +41,10 @@ def tmpAssignLines : Nat → List String → List String
   | _, [] => []
   | k, x :: xs => s!"{x} = {tmpName k};" :: tmpAssignLines (k + 1) xs
 
+/-- W6: `x = f(a, b);` / `f(a, b);` -/
+def callLine (x : Option String) (f : String) (args : List Expr) : String :=
+  (match x with | some x => x ++ " = " | none => "") ++ f ++ "(" ++ ", ".intercalate (args.map Expr.c) ++ ");"
+
 def Stmt.isSkip : Stmt → Bool | .skip => true | _ => false
 
 /-- lines of a statement; `chain` marks an `ifs` printed as `else if` -/
@@ -65,11 +69,44 @@ def Stmt.lines : Stmt → List String
   | .write e => [s!"Serial.println({e.c});"]
   | .sleep e => [s!"delay({e.c});"]
   | .brk => ["break;"]
+  | .call x f _ _ _ _ _ args => [callLine x f args]
+
+/-! ### W6: function definitions -/
+
+/-- the statements of a function body: the first top-level assignment of a local is its declaration `T x = e;` (`ls`: the locals with
+    their types; `dcl`: the locals declared so far) -/
+def Stmt.flines (ls : C.TyEnv) : List String → Stmt → List String × List String
+  | dcl, .seq a b =>
+    let r1 := a.flines ls dcl
+    let r2 := b.flines ls r1.2
+    (r1.1 ++ r2.1, r2.2)
+  | dcl, .assign x e =>
+    match ls.lookup x with
+    | some t => if dcl.contains x then ([s!"{x} = {e.c};"], dcl) else ([s!"{t.c} {x} = {e.c};"], x :: dcl)
+    | none => ([s!"{x} = {e.c};"], dcl)
+  | dcl, s => (s.lines, dcl)
+
+/-- `int scale(int v, bool flag)` / `void shout(int v)` -/
+def Helper.sig (h : Helper) : String :=
+  (match h.ret with | some _ => h.rt.c | none => "void") ++ " " ++ h.name ++ "(" ++
+    ", ".intercalate (h.ps.map fun p => p.2.c ++ " " ++ p.1) ++ ")"
+
+def Helper.retLines (h : Helper) : List String :=
+  match h.ret with | some e => [s!"return {e.c};"] | none => []
+
+def Helper.defLines (h : Helper) : List String :=
+  [h.sig ++ " {"] ++ (h.body.flines h.ls []).1 ++ h.retLines ++ ["}"]
+
+/-- the prototypes — only when MORE THAN ONE definition is emitted (`if len(functions) > 1`) — then the definitions (`emitter.py`:
+    between the globals and `setup()`) -/
+def helperLines (hs : List Helper) : List String :=
+  (if 1 < hs.length then hs.map (fun h => h.sig ++ ";") else []) ++ hs.flatMap Helper.defLines
 
 /-- the whole sketch; the scripts of this fragment always start with `mon = SerialMonitor(9600)` -/
 def CProg.lines (c : CProg) : List String :=
   ["#include <Arduino.h>"] ++
   c.globals.map (fun g => s!"{g.2.1.c} {g.1} = {g.2.2.c};") ++
+  helperLines c.helpers ++
   ["void setup() {", "Serial.begin(9600);"] ++ c.setup.lines ++ ["}"] ++
   ["void loop() {"] ++ c.loop.lines ++ ["}"]
 
